@@ -8,7 +8,9 @@ CHECKS = {
        "window's jointly valid pixels; gain = ratio of sums; gain-offset = closed-form OLS, satisfies both normal equations and "
        "minimises RSS over all lines; gain-blk-offset = block-normalised ratio of sums; R2 expansions = 1 - RSS/TSS; the fitted "
        "line maps mean source to mean reference for all models, also at in-painted pixels; no parameters off the joint mask; "
-       "kernel-shape validation spec (14 theorems). Tied to the code by running the real KernelModel.fit on ~200 (quick) / 4000 "
+       "kernel-shape validation spec (14 theorems); plus 8 source-tie theorems: the model's gain, OLS gain/offset, in-paint test, "
+       "re-estimated gain, both R2 expansions and the block-offset incorporation are the expressions harness/py2lean.py re-derives "
+       "from the source text of kernel_model.py on every run. Tied to the code by running the real KernelModel.fit on ~200 (quick) / 4000 "
        "(thorough) generated blocks: masks exact, gains bit-identical to float32(model rational), offsets/R2 within a float32 "
        "error budget, plus a brute-force definition oracle over each window.",
   note="OpenCV box filters are modelled as zero-border window sums (validated by the correspondence run on integer data where "
@@ -19,7 +21,8 @@ CHECKS = {
   text="Proof (Lean 4) over exact rationals: if ref = a x + b on the jointly valid pixels of a window, gain-offset OLS returns "
        "exactly (a, b), gain returns a (b = 0), gain-blk-offset returns (a, b) under the std/percentile hypotheses, R2 = 1; a "
        "normalised weighted-mean resampler keeps constants and commutes with affine maps; hence the up-sampled parameters are "
-       "(a, b) and the corrected value at a source pixel is a src + b at its own location (11 theorems). Tied to the code by real "
+       "(a, b) and the corrected value at a source pixel is a src + b at its own location (11 theorems); the kernel-formula source-tie "
+       "theorems and the end-to-end block transparency theorem (Props/E2E.lean) are audited here too. Tied to the code by real "
        "fusions of pairs constructed with the model's exact `average` resampler (ratios 1..4 incl. 5:2, 20:9, sub-pixel offsets, "
        "nodata borders/holes, NaN / numeric / internal-mask nodata, 1-3 bands with band-specific (a,b), three models, 1..64 blocks, "
        "threads 1/2/4, both processing grids): |corrected - (a src + b)| <= 2e-4 range at every valid source pixel, "
@@ -39,7 +42,9 @@ CHECKS = {
        "(corrected_valid_imp_src_valid*); conversely a valid source pixel is valid in the corrected image when its centre's "
        "processing pixel carries parameters and the up-sampling weights are non-negative (src_valid_imp_corrected_valid), with "
        "the chain behind the premise: a normalised mean over positive weights exists and is positive on positive data, the "
-       "pixel is in its own kernel window, so the gain fit exists on positive data (12 theorems). Tied to the code by ~45 (quick) / "
+       "pixel is in its own kernel window, so the gain fit exists on positive data (12 theorems); end to end for the whole-image "
+       "model (Props/E2EMask.lean): no invented pixels for every model and method, no lost pixels for the gain model on positive "
+       "data with nearest/bilinear up-sampling, and the same through every block (block_mask_eq_whole). Tied to the code by ~45 (quick) / "
        "900 (thorough) real fusions over validity patterns x geometry x models x kernels x grids x blocks x output nodata/dtype x "
        "up-sampling: subset always, equality under the hypotheses; plus the resampler validity rules against GDAL.",
   note="GDAL validity rules R1 (average) / R2 (centre rule for up-sampling) are modelled and measured; no-gap tiling is C06's; "
@@ -65,7 +70,11 @@ CHECKS = {
        "block's output window lies inside its input window (all A, B, s, v >= k/2+1); the fit at a pixel of a sub-block that "
        "contains its clipped kernel window equals the fit over the whole processing window, for all three models "
        "(fit_depends_only_on_window, via a crop lemma on window lists); bilinear/nearest support stays within one pixel of "
-       "the centre pixel and has non-negative normalised weights (5 theorems). Tied to the code by pairs of real fusions (1 block vs "
+       "the centre pixel and has non-negative normalised weights (5 theorems); END TO END (Props/E2E.lean): block_transparent - for every "
+       "image pair, grid geometry (ties included), kernel, block shape and overlap >= radius + 1, every source pixel gets from the "
+       "block that writes it exactly the value and validity of the single-block run of the whole-image model (nearest/bilinear; "
+       "all models given the same block normalisation), and partitions_agree; source-tie theorems for overlap_for_kernel and the "
+       "block loop of block_pairs. Tied to the code by pairs of real fusions (1 block vs "
        "1..6 halvings): parameter images identical (bit-identical on dyadic integer-exact data), corrected identical for nearest/"
        "bilinear/source grid, cubic-spline differences confined to one processing pixel of a seam; overlap_for_kernel vs model; and "
        "multi-block real fusions against the whole-image model (Model/FuseImage.lean), which has no blocks at all.",
@@ -76,10 +85,13 @@ CHECKS = {
   text="Proof (Lean 4): for all origins, pixel sizes, image sizes, block lengths s>0 and overlaps v>=0 the processing-grid "
        "output windows partition the processing window, the rounded other-grid output windows partition [round A, round B) "
        "which contains the source image, input windows are output windows grown by the overlap, paired windows cover the same "
-       "ground in whole pixels (15 theorems, Props/C06.lean). Tied to the code by a differential run of "
+       "ground in whole pixels; the block shape of _auto_block_shape (halving loop) is positive, never exceeds the window, fits the "
+       "memory budget, and is the whole window when that fits (22 theorems, Props/C06.lean); source-tie theorems: block_pairs' range "
+       "and corner arithmetic, expand_window_to_grid (divmod/ceil = [floor, ceil) = the model's integer expandTo), "
+       "round_bounds_to_grid are the model's definitions. Tied to the code by a differential run of "
        "RasterPairReader.block_pairs() against the model's executable block generator on ~200 (quick) / 4000 (thorough) "
        "geometries, exact on dyadic grids with power-of-two pixels, tie-tolerant (only at exact ties, computed in integers) where "
-       "the pixel arithmetic is inexact, plus the property's own predicates (cover count of every source pixel = 1, input "
+       "the pixel arithmetic is inexact, _auto_block_shape against the model for 8 budgets per geometry, plus the property's own predicates (cover count of every source pixel = 1, input "
        "windows contain output windows) on the code's windows, also for source and reference in different CRSs.",
   note="Float behaviour of rasterio's affine maps is outside the proof: the proof needs both neighbours to derive a shared "
        "boundary by the same function of the same integer corner; that obligation is checked on the real code per case. "
@@ -137,7 +149,8 @@ CHECKS = {
   text="Proof (Lean 4) over exact rationals: block sums are additive over any split of the pixels, accumulating the blocks of any "
        "partition gives the whole-image sums, in any completion order (sums_additive_over_partition, fold_perm); N = number of "
        "jointly valid processing pixels; RMSE^2 = mean squared difference; r2 = squared Pearson correlation (centred-sum identity); "
-       "rRMSE^2 = RMSE^2/mean(ref)^2 (15 theorems). Tied to the code by RasterCompare.process on integer-valued pairs with holes in both images, invalid pixels encoded as NaN / "
+       "rRMSE^2 = RMSE^2/mean(ref)^2 (15 theorems); source-tie: bandStats is get_band_stats' expressions with the square roots "
+       "squared away. Tied to the code by RasterCompare.process on integer-valued pairs with holes in both images, invalid pixels encoded as NaN / "
        "numeric nodata / internal mask (model "
        "resampler + cmpstats give the exact values): N exact, r2/RMSE/rRMSE to 5e-5, 3 partitions x threads 1/2/4 must agree, Mean "
        "row = band average, CLI JSON = API.",
@@ -149,7 +162,7 @@ CHECKS = {
   text="Proof (Lean 4): tile accumulators are additive, tiling- and completion-order-invariant (tile_partition_invariant, "
        "pacc_fold_perm); skipping empty tiles is sound, choosing them from band 1 is not (checked witness, D6); mean = sum/n; "
        "one-pass variance = population variance; min/max are attained bounds; in-paint percentage = 100 #(R2<t)/n; R2 bands are the "
-       "last third (20 theorems). Tied to the code by ParamStats.stats on synthetic parameter images with band-specific validity, bands of mixed sign / all "
+       "last third (20 theorems); source-tie: paramStats is ParamStats._get_image_stats' expressions. Tied to the code by ParamStats.stats on synthetic parameter images with band-specific validity, bands of mixed sign / all "
        "negative / all positive / constant values, and "
        "on images written by real fusions, each with 2 of 5 tilings and threads 1/2/4: every figure vs the exact model (pstats), "
        "figures equal across tilings, CLI JSON = API.",
@@ -170,7 +183,7 @@ CHECKS = {
   text="Proof (Lean 4): paramIndex n i k = k n + i + 1 gives bands i, n+i, 2n+i; it is a bijection onto 1..3n and injective "
        "(writes of different pairs/parameters never collide); the metadata loop labels exactly band paramIndex n i k with "
        "parameter k; the suffix validate_param_image expects there is k; on the source grid corrected = gain*src + offset "
-       "(7 theorems). Tied to the code by multi-band fusions with default/subset/re-ordered band selections: each matched pair "
+       "(7 theorems); source-tie: paramIndex and apply are the source's expressions. Tied to the code by multi-band fusions with default/subset/re-ordered band selections: each matched pair "
        "re-run as a single-band fusion must be bit-identical to bands i, n+i, 2n+i and corrected band i; labels vs the model's "
        "layout; tags; ParamStats accepts; parameter mask = jointly valid on the processing grid (model validity rules); "
        "source-grid identity bit for bit.",
@@ -183,18 +196,21 @@ CHECKS = {
        "equal length; the source list is a sub-list of the given order; only candidate reference bands are used and none twice; "
        "unless forced no selected source band is dropped; every pair with wavelengths on both sides is within tolerance - "
        "including file-order fallback pairs; and if every source band's nearest reference band is strictly nearest, distinct and "
-       "within tolerance, the result is exactly that assignment (8 theorems, ~1100 lines incl. the greedy-loop invariant). Tied "
+       "within tolerance, the result is exactly that assignment (8 theorems, ~1100 lines incl. the greedy-loop invariant); and 9 "
+       "theorems about _get_band_info (Props/BandInfo.lean): only candidate bands are selected, a user selection is kept or "
+       "rejected, the default selection, a wavelength tag is never overwritten, the RGB defaults only fill gaps of three-band "
+       "images and the file-order assumption is made only when no candidate carries any wavelength information. Tied "
        "to the code by 2000 (quick) / 50000 (thorough) generated configurations through the real matcher (stub datasets) and a "
        "sample through real files and RasterFuse: band lists / error kind equal to the model's, plus soundness predicates.",
   note="Known finding D12 (open, with a checked witness theorem): all-zero reference wavelengths bypass the tolerance test "
        "(numpy any()). Wavelengths are dyadic rationals in the correspondence run; tolerance = exact rational of the double 0.1. "
-       "_get_band_info is modelled and differentially tested but has no theorems of its own.",
+       "",
   tech="Lean 4 proof (loop invariant for the greedy matcher, list/nodup/sublist reasoning) + differential run", ref='7 C15'),
  'C16': dict(
   text="Proof (Lean 4): the repaired covers_bounds predicate accepts iff the source footprint is contained in the reference "
        "footprint on each axis (covers_iff_contains), overhang on any side by any amount is rejected, the same grid is accepted, "
        "a checked counterexample for the originally coded predicate (D2), and the orientation/CRS decision table of "
-       "same_orientation_crs (decide over all 32 rows). Tied to the code by constructing RasterFuse/RasterCompare on ~300 (quick) "
+       "same_orientation_crs (decide over all 32 rows); source-tie: covers_bounds' final predicate with zero tolerance is the model's. Tied to the code by constructing RasterFuse/RasterCompare on ~300 (quick) "
        "/ 6000 (thorough) generated placements (inside, flush, overhang by 1 unit..many pixels per side; both resolution orders; "
        "dyadic/decimal; south-up storage), by driving the real same_orientation_crs through all table rows, and by real placements "
        "of a source in another CRS (EPSG/EPSG, two custom CRSs without EPSG codes, mixed) well inside / straddling each edge / far "
@@ -220,7 +236,7 @@ CHECKS = {
        "a driver change; flips are involutive; every model/block configuration key reaches the metadata call (generated tables); "
        "and the band round trip: with the matched reference bands' wavelengths copied to the corrected bands and pairwise distinct "
        "reference wavelengths, matching the corrected image against the same reference selects exactly the bands the fusion used "
-       "(roundtrip_bands, a corollary of C15's match_nearest) (10 theorems). Tied to the code by real fusions: corrected grid = "
+       "(roundtrip_bands, a corollary of C15's match_nearest) (10 theorems); source-tie: _resolve_proc_crs. Tied to the code by real fusions: corrected grid = "
        "north-up source grid, band count/order/descriptions/wavelength tags of the matched reference bands, parameter image on the "
        "processing grid, which under auto is the coarser image - also for degree-sized pixels (EPSG:4326 stratum) (model "
        "procres), FUSE_* tags complete and equal to the effective settings, south-up storage of source/"
